@@ -900,6 +900,11 @@ def t_pull_first_group():
         I.require(z3.ForAll([h], G.member(h) == z3.Or(h == c0, later(h))), "group_is_the_head_plus_the_unranked_candidates_it_does_not_dominate")
         I.require(G.single == z3.Not(z3.Exists([h], later(h))), "group_is_a_single_method_iff_the_head_dominates_every_other_unranked_candidate")
         I.require(z3.ForAll([h], env.get("processed").member(h) == z3.Or(proc0(h), later(h))), "the_tied_candidates_are_marked_as_ranked")
+        # guarantee side of the premise of MultiTypeMap.resolve (mode U) "each method is in exactly one group": no member of this
+        # group can be yielded again - it is marked as ranked (filtered out by every later call) or it is the head, which does
+        # not occur in candidates[1:] (duplicate-free list)
+        P1 = env.get("processed")
+        I.require(z3.ForAll([h], z3.Implies(G.member(h), z3.Or(P1.member(h), z3.Not(z3.Exists([q], z3.And(1 <= q, q < B.length, B.elem(q).f["handler"].t == h)))))), "no_member_of_the_group_can_be_yielded_by_the_recursive_call")
         I.require(len(calls) == 1, "recursive_call_made_once")
         if len(calls) == 1:
             a = calls[0]
